@@ -12,6 +12,12 @@ CHECKS = {
   'C01': dict(category='other', technique='symbolic execution of the traced jaxpr (sparse affine/polynomial normal forms) + QF_LRA queries (z3, cvc5 cross-check); mpmath analytic-basis oracle',
               text='Bounded symbolic verification: round trip, mask exactness, integral identity, orthonormality and agreement with the analytic basis are decided for ALL spectral fields in [-1,1]^n on each enumerated grid (both implementations, 3 spacings, padding options, leading axes).',
               design='§3 C01'),
+  'C02': dict(category='other', technique='symbolic execution of the traced jaxpr + QF_LRA queries; mpmath analytic-derivative oracle',
+              text='Bounded symbolic verification: every spectral operator (d_dlon, cos_lat_d_dlat, sec_lat_d_dlat_cos2, grad, div, curl, Laplacian, inverse, clipping, wind conversions) is compared for ALL fields in the box with analytic derivatives of the basis, the eigenvalue specification, vector identities and round trips, on each enumerated grid.',
+              design='§3 C02'),
+  'C03': dict(category='other', technique='symbolic execution of the traced jaxpr + QF_LRA queries (monomial abstraction, denominators cleared for shallow water)',
+              text='Bounded symbolic verification of the resolvent identity inverse(x - eta G x, eta) = x for ALL states on each enumerated (grid, uneven/even sigma levels, T_ref, constants, step size of either sign, dense/sparse operator, split/stacked/blockwise solve); dense==sparse for all inputs; linearity; derived (replace/copy) equation objects; shallow water with symbolic step and reference potentials.',
+              design='§3 C03'),
 }
 
 NOT_YET = {}
